@@ -64,10 +64,19 @@ def mtrl(m):
     no = iter(set_offs)
     pre += b"".join(struct.pack("<HH", next(no), i) for i in range(m.get("uv_sets", 0)))
     pre += b"".join(struct.pack("<HH", next(no), i) for i in range(m.get("color_sets", 0)))
-    rest = bytes(strings) + struct.pack("<I", flags) + data_set + hdr2 + keys + consts + samplers + values
+    # additional data: the table flags are its first (up to four) bytes; a block shorter than four bytes is still followed by
+    # the rest of a four-byte slot ("addl_fill": what lies there - not flags), a longer one carries more bytes behind the flags
+    addl = m.get("addl_size", 4)
+    word = struct.pack("<I", flags)
+    if addl < 4:
+        assert flags < (1 << (8 * addl)) or (addl == 0 and flags == 0)
+        word = word[:addl] + bytes(m.get("addl_fill") or [0xA5] * (4 - addl))
+    elif addl > 4:
+        word = word + bytes(m.get("addl_fill") or [0x5A] * (addl - 4))
+    rest = bytes(strings) + word + data_set + hdr2 + keys + consts + samplers + values
     total = 16 + len(pre) + len(rest)
     fh = struct.pack("<IHHHHBBBB", 0x01030000, total & 0xFFFF, len(data_set), len(strings), shpk_off, len(m["textures"]),
-                     m.get("uv_sets", 0), m.get("color_sets", 0), 4)
+                     m.get("uv_sets", 0), m.get("color_sets", 0), addl)
     return fh + pre + rest
 
 
